@@ -24,6 +24,8 @@ def harness_src(g, pkg, props, unconstrained=False, entry="", file_name=""):
     ref_init = []
     box_keys = []
     for k, isbox in sorted(st_keys.items()):
+        if k in (g.get("noinit_keys") or []):
+            continue  # the key does not exist when the parse starts
         if isbox:
             init_opts.append('InitState(%s, box{new(int)})' % gspec.go_quote(k))
             box_keys.append(k)
